@@ -217,6 +217,23 @@ func c11(c *ctx) {
 			}
 		}
 	}
+	// ---- offers that hold names differing only in letter case (subprotocol names are case-sensitive
+	// tokens): both peers must report the very spelling the server selected
+	for pi, pl := range [][]string{{"chat", "CHAT"}, {"v1.Chat", "v1.chat", "json"}, {"Chat", "chat", "CHAT"}, {"json", "JSON", "Json"}} {
+		for ai, ac := range [][]string{{"CHAT"}, {"v1.chat"}, {"chat"}, {"Json", "JSON"}, {"chat", "CHAT"}} {
+			for bi := 0; bi < 3; bi++ {
+				rot++
+				pc := pairCfg{cProtos: pl, sAccept: ac, sHasSel: true, sExtMode: "none", cHeader: bi == 1, sHeader: bi == 2,
+					crb: bufs[rot%5], cwb: bufs[(rot/5)%5], srb: bufs[(rot/2)%5], swb: bufs[(rot/7)%5], cChunk: chunks[rot%5], sChunk: chunks[(rot/3)%5]}
+				key := fmt.Sprintf("casepair/%d/%d/%d", pi, ai, bi)
+				if !vh.Only(key) {
+					continue
+				}
+				cr, sr, dl := runPair(pc)
+				emit(map[string]interface{}{"k": "pair", "key": key, "c": cr, "s": sr, "deadlock": dl}, fmt.Sprintf("casepair/%v/%v/%d/%d", cr.OK, sr.OK, pi, ai))
+			}
+		}
+	}
 	// ---- pairs over a transport whose n-th write fails on one side: neither peer may report success
 	for _, who := range []string{"server", "client"} {
 		for failAt := 1; failAt <= 4; failAt++ {
